@@ -11,10 +11,10 @@ CONSTANT Emit
 VARIABLES names, defaults, used, comp, hist
 vars == <<names, defaults, used, comp, hist>>
 
-MacroNames == {"integer", "mynew", "absolute_size"}
+MacroNames == {"integer", "mynew", "absolute_size", "uri"}
 BaseUsed == [m \in MacroNames |-> BaseLit(m)]
 Uses(p) == CASE p = "P1" -> {"integer", "mynew"} [] p = "P1x" -> {"integer"} [] p = "P2" -> {"integer", "absolute_size"} [] p = "P3" -> {"integer", "mynew"}
-             [] p = "P4" -> {"integer"} [] p = "B" -> {"integer", "absolute_size"} [] OTHER -> {}
+             [] p = "P4" -> {"integer"} [] p = "P5" -> {"uri"} [] p = "B" -> {"integer", "absolute_size", "uri"} [] OTHER -> {}
 Update(u, p) == [m \in MacroNames |-> IF Defines(p, m) THEN MacrosOf(p)[m] ELSE u[m]]
 RECURSIVE FoldUpdate(_, _)
 FoldUpdate(u, ps) == IF ps = <<>> THEN u ELSE FoldUpdate(Update(u, ps[1]), Tail(ps))
